@@ -12,6 +12,6 @@ fi
 git -C "$W" checkout -q --detach "$(git -C /repo rev-parse HEAD)" 2>/dev/null
 git -C "$W" checkout -q -- . ; git -C "$W" clean -fdq -e target
 if ! git -C "$W" apply "$D/patch.diff"; then echo "PATCH-DOES-NOT-APPLY $D"; exit 2; fi
-( cd "$W" && CARGO_NET_OFFLINE=true cargo nextest run --workspace --no-fail-fast --offline --test-threads ${SEEDCONFIRM_THREADS:-8} 2>&1 | tail -15 ) > "$D/tests-confirm.txt" 2>&1
+( cd "$W" && CARGO_PROFILE_DEV_DEBUG=0 CARGO_PROFILE_TEST_DEBUG=0 CARGO_NET_OFFLINE=true cargo nextest run --workspace --no-fail-fast --offline --test-threads ${SEEDCONFIRM_THREADS:-8} 2>&1 | tail -15 ) > "$D/tests-confirm.txt" 2>&1
 git -C "$W" checkout -q -- . ; git -C "$W" clean -fdq -e target
 if grep -q "358 tests run: 358 passed" "$D/tests-confirm.txt"; then echo "TESTS-PASS $(basename "$D")"; else echo "TESTS-FAIL $(basename "$D"): $(grep -m1 'tests run' "$D/tests-confirm.txt")"; fi
